@@ -69,6 +69,7 @@ const (
 	ctxAtAsync  = "at-async"     // as ctxAt, but by a helper goroutine racing the user function's next step
 	ctxDeadline = "deadline"     // context.WithTimeout of a few hundred microseconds (real timer; either outcome is legal)
 	ctxViaTimer = "via-timer"    // only with kOutlive: the outliver waits for a real, tiny deadline instead of cancelling
+	ctxPark     = "cancelled-while-generator-parked" // family genpark: cancelled by the harness / a mapper, see genpark_test.go
 )
 
 // idxEnd as Index: generator: after the last item; reducer: after the pipe was closed.
@@ -105,6 +106,9 @@ type plan struct {
 	Errs     string   `json:"cancel_error_values,omitempty"`
 	PanicVal string   `json:"panic_values,omitempty"`
 	More     []xfault `json:"more_faults,omitempty"`
+	// genpark_test.go: the generator is parked (on an upstream the harness owns, or in the middle of
+	// producing) when the call has to end, and is released only after the call has returned
+	Park *parkPlan `json:"generator_parked,omitempty"`
 }
 
 func (p plan) effWorkers() int {
